@@ -434,7 +434,19 @@ class SymReal:
         return x
 
     def __round__(self, n=None):
-        raise Unsupported("round on SymReal")
+        """round(x): nearest integer, ties to even — decided by forking over the result within
+        the same bound as int() (larger magnitudes are assumed away)."""
+        if n is not None:
+            raise Unsupported("round(x, ndigits) on SymReal")
+        c = ctx()
+        B = c.TRUNC_BOUND
+        c.assume(s_and(self > -(B + 1), self < B + 1), "round-bound")
+        for k in range(-(B + 1), B + 2):
+            if bool(self < k + 0.5):
+                if bool(self == k - 0.5) and k % 2 == 1:
+                    return k - 1            # exact tie below: even neighbour
+                return k
+        raise HarnessError("round: unreachable")
 
     def __array_ufunc__(self, ufunc, method, *inputs, **kwargs):
         if method != "__call__" or kwargs.get("out") is not None:
